@@ -2,6 +2,7 @@
 canonicalisation and generators.  Shapes / calls are S-expression trees, see lean/TTV/Drv/Res.lean:
 
 shape : [sink f] f in py26/py27/twisted/ext | [tt B] | [text B] | [tbt] | [etod s] | [deco s] | [tagger new gone s]
+        | [ffbox late B s] (s a deco / tagger: the same object with the instance attribute failfast = B, assigned at once (late false) or after the whole graph is built (late true))
         | [tfr [etod s]] | [multi [etod s] ...] | [e2s [etod s]]
         (the etod below tfr/multi/e2s is the ExtendedToOriginalDecorator those classes create themselves)
 call  : [startTestRun] [stopTestRun] [startTest t] [stopTest t] [add kind t arg] [tags new gone] [time tv] [stop] [done]
@@ -342,12 +343,15 @@ def K():
     class RecTBT(RecTBTBase):
         def __init__(self):
             self._calls = []
+            self._faults = ()        # tests for which the callback raises (after having recorded the call)
             RecTBTBase.__init__(self, self._on_test)
 
         def _on_test(self, test, status, start_time, stop_time, tags, details):
             from harness.core import some
             self._calls.append([tnum(test), some(status), canon_time(start_time), canon_time(stop_time), tagnums(tags),
                                 some(canon_details(details)) if details is not None else None])
+            if tnum(test) in self._faults:
+                raise CallbackFault(tnum(test))
 
     class TC(testtools.TestCase):
         def test(self):
@@ -405,6 +409,19 @@ def K():
     return _K
 
 
+class CallbackFault(Exception):
+    """raised by the on_test callback of a recording TestByTestResult for the tests named in the input"""
+
+    def __init__(self, n):
+        Exception.__init__(self, n)
+        self.n = n
+
+
+def linear_tbt(s):
+    """a linear stack of ExtendedToOriginalDecorator / TestResultDecorator / Tagger layers over a TestByTestResult"""
+    return s[0] == 'tbt' or (s[0] in ('etod', 'deco', 'tagger', 'ffbox') and linear_tbt(children(s)[0]))
+
+
 class Graph:
     """the Python objects of a shape: root, leaves left to right"""
 
@@ -415,7 +432,10 @@ class Graph:
         self.leaves = []
         self.points = []         # observation points, pre-order: leaves and the recorder of every e2s node
         self.nodes = []          # (path, object) of every node
+        self.pending = []        # (object, value): failfast attributes to assign once everything is built
         self.root = self.build(shape, ())
+        for o, b in self.pending:
+            o.failfast = b
         self.tests = {}
 
     def target(self, s, path):
@@ -448,6 +468,13 @@ class Graph:
             o = real.TestResultDecorator(self.build(s[1], path + (0,)))
         elif kind == 'tagger':
             o = real.Tagger(self.build(s[3], path + (0,)), {tagname(i) for i in s[1]}, {tagname(i) for i in s[2]})
+        elif kind == 'ffbox':
+            assert s[3][0] in ('deco', 'tagger'), s
+            o = self.build(s[3], path + (0,))
+            if s[1]:
+                self.pending.append((o, s[2]))
+            else:
+                o.failfast = s[2]
         elif kind == 'tfr':
             o = real.ThreadsafeForwardingResult(self.target(s[1], path + (0,)), threading.Semaphore(1))
         elif kind == 'multi':
@@ -503,7 +530,7 @@ class Graph:
 # ----- static facts about shapes (mirror of `caps` in TTV/Model/Result.lean, used to keep generated calls in the domain)
 def has_progress(s):
     k = s[0]
-    return k in ('etod', 'deco', 'tagger', 'tfr') or (k == 'sink' and s[1] == 'ext')
+    return k in ('etod', 'deco', 'tagger', 'tfr', 'ffbox') or (k == 'sink' and s[1] == 'ext')
 
 
 def can_progress(s):
@@ -515,7 +542,7 @@ def can_progress(s):
         return (not has_progress(s[1])) or can_progress(s[1])
     if k == 'deco':
         return can_progress(s[1])
-    if k == 'tagger':
+    if k in ('tagger', 'ffbox'):
         return can_progress(s[3])
     return k == 'tfr'
 
@@ -524,17 +551,20 @@ def can_done(s):
     return s[0] in ('tt', 'text', 'tbt', 'etod', 'tfr', 'multi')
 
 
+NODE_KINDS = ('sink', 'tt', 'text', 'tbt', 'etod', 'deco', 'tagger', 'tfr', 'multi', 'e2s', 'ffbox')
+
+
 def kinds_in(s, acc=None):
     acc = [] if acc is None else acc
     acc.append(s[0] if s[0] != 'sink' else 'sink:' + s[1])
     for c in s[1:]:
-        if isinstance(c, list) and c and isinstance(c[0], str) and c[0] in ('sink', 'tt', 'text', 'tbt', 'etod', 'deco', 'tagger', 'tfr', 'multi', 'e2s'):
+        if isinstance(c, list) and c and isinstance(c[0], str) and c[0] in NODE_KINDS:
             kinds_in(c, acc)
     return acc
 
 
 def depth(s):
-    subs = [c for c in s[1:] if isinstance(c, list) and c and isinstance(c[0], str) and c[0] in ('sink', 'tt', 'text', 'tbt', 'etod', 'deco', 'tagger', 'tfr', 'multi', 'e2s')]
+    subs = [c for c in s[1:] if isinstance(c, list) and c and isinstance(c[0], str) and c[0] in NODE_KINDS]
     return 1 + max([depth(c) for c in subs] or [0])
 
 
@@ -542,7 +572,7 @@ def children(s):
     k = s[0]
     if k in ('etod', 'deco', 'tfr', 'e2s'):
         return [s[1]]
-    if k == 'tagger':
+    if k in ('tagger', 'ffbox'):
         return [s[3]]
     if k == 'multi':
         return list(s[1:])
@@ -559,6 +589,8 @@ def wf_shape(s, under_etod=False):
         return wf_shape(s[1], True)
     if k in ('deco', 'tagger'):
         return wf_shape(children(s)[0])
+    if k == 'ffbox':
+        return s[3][0] in ('deco', 'tagger') and wf_shape(s[3])
     if k in ('tfr', 'e2s'):
         return s[1][0] == 'etod' and wf_shape(s[1])
     if k == 'multi':
@@ -615,8 +647,15 @@ def gen_tags_call(rng, pool=4):
 OLD = ['py26', 'py27', 'twisted']
 
 
-def gen_shape(rng, d, leaves=('old', 'ext', 'tt', 'tbt'), inner=('etod', 'deco', 'tagger', 'tfr', 'multi'), ff=False):
-    """a capable (extended-protocol) result graph of depth <= d+1"""
+def gen_shape(rng, d, leaves=('old', 'ext', 'tt', 'tbt'), inner=('etod', 'deco', 'tagger', 'tfr', 'multi'), ff=False, ffbox=0.0):
+    """a capable (extended-protocol) result graph of depth <= d+1; ffbox = probability that a decorator layer gets a failfast attribute"""
+    s = gen_shape1(rng, d, leaves, inner, ff, ffbox)
+    if ffbox and s[0] in ('deco', 'tagger') and rng.random() < ffbox:
+        return ['ffbox', rng.random() < 0.5, rng.random() < 0.65, s]
+    return s
+
+
+def gen_shape1(rng, d, leaves, inner, ff, ffbox):
     if d <= 0 or rng.random() < 0.25:
         l = rng.choice(leaves)
         if l == 'old':
@@ -631,14 +670,14 @@ def gen_shape(rng, d, leaves=('old', 'ext', 'tt', 'tbt'), inner=('etod', 'deco',
     def target():
         if 'old' in leaves and rng.random() < 0.3:
             return ['etod', ['sink', rng.choice(OLD)]]
-        return ['etod', gen_shape(rng, d - 1, leaves, inner, ff)]
+        return ['etod', gen_shape(rng, d - 1, leaves, inner, ff, ffbox)]
     if k == 'etod':
-        return ['etod', gen_shape(rng, d - 1, leaves, inner, ff)]
+        return ['etod', gen_shape(rng, d - 1, leaves, inner, ff, ffbox)]
     if k == 'deco':
-        return ['deco', gen_shape(rng, d - 1, leaves, inner, ff)]
+        return ['deco', gen_shape(rng, d - 1, leaves, inner, ff, ffbox)]
     if k == 'tagger':
         new = gen_tagset(rng, 6)
-        return ['tagger', new, [t for t in gen_tagset(rng, 6) if t not in new], gen_shape(rng, d - 1, leaves, inner, ff)]
+        return ['tagger', new, [t for t in gen_tagset(rng, 6) if t not in new], gen_shape(rng, d - 1, leaves, inner, ff, ffbox)]
     if k in ('tfr', 'e2s'):
         return [k, target()]
     return ['multi'] + [target() for _ in range(rng.choice([1, 2, 2, 3]))]
@@ -661,6 +700,12 @@ def shrink_shape(s):
             yield s[:3] + [c]
         if s[1] or s[2]:
             yield ['tagger', [], [], s[3]]
+    if k == 'ffbox':
+        if s[3][0] == 'tagger':
+            yield s[:3] + [['deco', s[3][3]]]
+        for c in shrink_shape(s[3]):
+            if wf_shape(s[:3] + [c]):
+                yield s[:3] + [c]
     if k == 'multi':
         for i in range(1, len(s)):
             for c in shrink_shape(s[i]):
